@@ -112,6 +112,7 @@ package hamt
 
 //@ func (*hamt._UnixFSHAMTShard).getChildLink
 //@ requires 0 <= childIndex && childIndex < shardFanout(n)
+//@ ensures link-or-error: err == nil ==> result != nil
 //@ assigns nothing
 
 //@ func (hamt.stringTransformer).transformNameNode
@@ -144,6 +145,7 @@ package hamt
 
 //@ func (*hamt._UnixFSHAMTShard).lookup
 //@ prop C12
+//@ ensures found-or-error: err == nil ==> result != nil
 //@ ensures the-stores-error-is-returned-as-is: !old(loadFailed) && loadFailed ==> err == lastLoadErr
 //@ at call (*hamt._UnixFSHAMTShard).lookup#1 assert one-request-per-level: old(loads) <= loads && loads <= old(loads) + 1 && hv.consumed >= old(hv.consumed) + 1 && hv.consumed <= len(hv.b) * 8
 //@ decreases len(hv.b) * 8 - hv.consumed
